@@ -1795,6 +1795,15 @@ func (x *X) startRange(s *State, i *ssa.Range) {
 		_ = j2
 	}
 	s.iters[i] = it
+	// the enumeration stays nameable after the loop: rangeKeys<k> (a list), rangePos<k>(key) for the loop with ordinal k
+	if h := x.iterHeader(i); h != nil {
+		if ord, ok := x.loopOrd[h]; ok {
+			s.lets[fmt.Sprintf("rangeKeys%d", ord)] = Sl{0, it.N, Sc{T: it.K, Sort: arrSort("Int", ks)}}
+			if it.Pos != "" {
+				s.lets[fmt.Sprintf("rangePos%d", ord)] = Opq{"fn:" + it.Pos}
+			}
+		}
+	}
 	fr.env[i] = Opq{"iterator"}
 }
 
